@@ -411,6 +411,42 @@ func loneHeads(c *ctx, perHead int) {
 				}
 			}
 		}
+		if f == hx.Binc {
+			// symbol definitions (bd = 0xb0 | wide-id 8 | definition 4 | length width code) claiming a hostile length:
+			// the length of a symbol's text has its own decoder (not decLen), in every width
+			for _, wb := range []byte{0, 8} {
+				for lw := 0; lw < 4; lw++ {
+					for _, l := range append(hostileLens(f), 0, 1, 300, 1<<63|c.r.U64()>>1, 1<<63|c.r.U64()>>2, 1<<63|c.r.U64()>>32) {
+						for q := 0; q < perHead; q++ {
+							in := []byte{0xb0 | wb | 4 | byte(lw), byte(1 + c.r.Intn(200))}
+							if wb != 0 {
+								in = append(in, byte(c.r.Intn(256)))
+							}
+							for k := (1 << uint(lw)) - 1; k >= 0; k-- {
+								in = append(in, byte(l>>(8*uint(k))))
+							}
+							in = append(in, c.r.Bytes(c.r.Intn(12))...)
+							switch c.r.Intn(3) {
+							case 1:
+								in = append(hx.HeadBytes(f, hx.NArr, 2, 0, 0), in...)
+							case 2:
+								in = append(hx.HeadBytes(f, hx.NMap, 1, 0, 0), in...)
+							}
+							// over every transport: bytes, unbuffered io.Reader, buffered io.Reader
+							di := destFor(c, hx.NStr)
+							for tr := 0; tr < 3; tr++ {
+								o := randOpts(c.r, f)
+								o.IO, o.RBS, o.Chunk = tr > 0, 0, 0
+								if tr == 2 {
+									o.RBS, o.Chunk = c.r.PickInt(16, 64, 4096), c.r.PickInt(0, 1, 5)
+								}
+								c.add(f, di, o, in, "head:binc-symbol")
+							}
+						}
+					}
+				}
+			}
+		}
 		if f == hx.Cbor {
 			// indefinite forms without an end, chunks of the wrong type, reserved additional information
 			for _, s := range [][]byte{{0x5f}, {0x7f}, {0x9f}, {0xbf}, {0x5f, 0x61, 0x61}, {0x7f, 0x41, 0x00, 0xff}, {0x9f, 0xff}, {0xbf, 0x01, 0xff},
